@@ -534,6 +534,9 @@ static inline Pre pre_op(int kind, const volatile void* a, const void* ra)
         Rec& r = R[self];
         bool spinning = r.spin_valid && r.spin_ra == ra && r.spin_addr == (const void*) a &&
             r.spin_epoch == epoch;
+        // a thread that keeps polling the clock while nobody else makes progress repeats the same
+        // loop iteration: its operations open no further choice points (reduction, not extension)
+        if (r.poll_k >= 2) spinning = true;
         if (!spinning)
         {
             in_rt = 1;
